@@ -1485,11 +1485,21 @@ def r5_contract(program, rep):
         CHIP = ("comp", E, 0)
         TL = _P(formals(mts)[1])
 
+        bypass = []
+
         def tgt_ok(x, depth=0):
             # the caller's target itself, or an entry of it for this chip
             if x == TL:
                 return True
             if lookup(x) is not None:
+                if x[0] == "get" and len(x) == 3 and any(
+                        plain(a_)[0] == "call" and
+                        plain(a_)[1][-1] == "defaultdict"
+                        for a_ in alternatives(x[1])):
+                    # .get() does not call a defaultdict's factory: the
+                    # target silently becomes None (no limit)
+                    bypass.append(x)
+                    return False
                 return lookup(x)[1] == CHIP
             if x[0] in ("call", "callv") and x[1][0] in ("local", "mu") \
                     and depth < 2:
@@ -1515,7 +1525,12 @@ def r5_contract(program, rep):
             _P(formals(mts)[2])
     rep.check(okt, "C04-R5", qual(mts), "each chip's table is minimised "
               "against that chip's own target with the caller's methods",
-              construct="minimise_tables call", node=mts)
+              construct="minimise_tables call", node=mts,
+              fail="the target handed to minimise_table is read with .get() "
+                   "from a collections.defaultdict, which does not use the "
+                   "default factory: an integer target is lost (None = no "
+                   "limit) and a table that is too large is returned "
+                   "silently" if (okt is False and bypass) else None)
     om = program.get(OC + ":minimise")
     O = Terms(om)
     okc = False
